@@ -154,6 +154,17 @@ def _exec(op, kv):
         return "".join(str(b) for b in vectorisePositions(ints(kv.get("POS", "")), int(kv["res"]), int(kv["start"]), stop))
     if op == "BLUR":
         return "".join(str(int(b)) for b in blur([int(c) for c in kv.get("V", "")], int(kv["radius"])))
+    if op == "CORR":
+        import numpy as np
+        from scipy.signal import correlate
+        r = np.array([int(c) for c in kv.get("R", "")], dtype=float)
+        q = np.array([int(c) for c in kv.get("Q", "")], dtype=float)
+        if len(q) > len(r) or len(q) == 0:
+            return " N="
+        c = correlate(r, q, mode='valid', method='fft')
+        n = correlate(r, np.ones(len(q)), mode='valid', method='fft') + np.sum(q)
+        assert np.max(np.abs(c - np.rint(c))) < 1e-6 and np.max(np.abs(n - np.rint(n))) < 1e-6
+        return ",".join(str(int(x)) for x in np.rint(c)) + " N=" + ",".join(str(int(x)) for x in np.rint(n))
     if op == "TOBP":
         import numpy as np
         return num(toRelativeGenomicPositions(np.array([int(kv["bin"])]), int(kv["res"]), int(kv["start"]))[0])
